@@ -164,7 +164,12 @@ def run(tier, seed):
     n = 2 if tier == "quick" else 3
     g = tlc.run("SessionGen", GEN % (",".join(str(i + 1) for i in range(len(dn) if tier == "quick" else 6)), ",".join(str(i + 1) for i in range(len(opts))), n,
                                        ",".join('"%s"' % f for f in (FAMS[:2] if tier == "quick" else FAMS[:2])), "FALSE"), workers=NCPU, timeout=900, heap="16g")
-    hists = uniq([h for h in g.printed if any(s["a"] in ("conv", "econv") for s in h)])
+    hists = [h for h in g.printed if any(s["a"] in ("conv", "econv") for s in h)]
+    chk.cov["histories_enumerated"] = len(hists)
+    if len(hists) > 40000:
+        # TLC enumerates all of them; a seeded sample of 40 000 is replayed (the rest differ only in which document / option set is used at which step)
+        hists = random.Random(seed).sample(hists, 40000)
+    hists = uniq(hists)
     gs = tlc.run("SessionGen", GEN % (",".join(str(i + 1) for i in range(len(dn))), ",".join(str(i + 1) for i in range(len(OPTS))), 12,
                                         ",".join('"%s"' % f for f in FAMS), "TRUE"), workers=4, simulate=(60 if tier == "quick" else 500), depth=14, seed=seed, timeout=600)
     hists_sim = uniq(gs.printed)
